@@ -1,6 +1,8 @@
 CONSTANTS
+  WithDone = TRUE
+  TrackerBug = "none"
   Shapes <- AnyShapes
 INIT TInit
 NEXT TNext
-INVARIANTS TypeOK OnlySuccessful QuorumBacked ErrWhenExceeded AtMostOneCall CleanupSafe CleanupExactlyOnce UnusedCancelled ReturnedNotCancelled EmitAccepted
+INVARIANTS TypeOK OnlySuccessful QuorumBacked ErrWhenExceeded AtMostOneCall CleanupSafe CleanupExactlyOnce UnusedCancelled ReturnedNotCancelled CompletedJustified CompletedWhenAllDone EmitAccepted
 CHECK_DEADLOCK FALSE
